@@ -54,6 +54,12 @@ CLAIMED.update({
    note="CRLF sources are not generated. Constructs spanning several lines are outside the property.",
    technique="exhaustive enumeration of construct x preceding-line histories x context on the real pipeline"),
 })
+CLAIMED.update({
+ "C14": dict(level="model_checking", design="4.14",
+   text="(i) codec round trip exhaustive over all 48 opcodes and every operand value of their widths (thorough: the full 65536x256 product for Closure); (ii) trace conformance: programs executing all 48 opcodes (asserted), incl. indices and jump targets beyond 2^8 and 2^15, are run with the VM trace hook and every step must continue at ip + 1 + operand widths of the definitions table or at the decoded jump target, jumps landing on instruction boundaries; (iii) limit grid at limit-1..limit+2 around 2^8, 2^15 and 2^16 for constants, globals, jump targets of every jump-emitting construct, array/map elements, locals, call arguments, captured variables, and constant/global indices accumulated over chained compilation units (REPL style): reject what cannot be encoded, everything accepted must equal its closed-form result.",
+   note="Limits are probed at limit-1..limit+2 only. In the quick tier the 2^16 boundary of constant/global indices is reached through chained units (one 65536-statement program is quadratic to compile); thorough also compiles the single huge programs.",
+   technique="exhaustive codec enumeration + explicit-state trace conformance against the VM + exhaustive limit grid"),
+})
 NOT_YET = "check not built yet in this round (machinery under construction; see DESIGN.md section 4 for the planned check)"
 
 props = [json.loads(l) for l in open(os.path.join(HERE, "properties.jsonl"))]
